@@ -115,6 +115,9 @@ def run_case(kind, p):
             stack = np.stack([np.roll(vals, (3, 5), axis=(0, 1)), vals])
             try:
                 ref = fn(pattern, stack.astype(np.float64), peaks)
+                if p.get("prior_narrow"):
+                    # call history: a stack of 8-bit / 16-bit frames of the same shape, same peaks, processed right before
+                    fn(pattern, (np.abs(stack) % 251).astype(p["prior_narrow"]), peaks)
                 got = fn(pattern, stack.astype(p["dtype"]), peaks)
             except Exception as e:
                 msgs.append(f"{nm} with {p['dtype']} frames raised {type(e).__name__}: {e}")
@@ -178,6 +181,10 @@ def search(ctx, boost=1, focus=()):
                 peaks = np.stack([rng.integers(0, shape[0], npk), rng.integers(0, shape[1], npk)], axis=1)
                 p = {"seed": int(rng.integers(1 << 30)), "dtype": name, "spread": spread, "pattern": pat,
                      "shape": shape, "peaks": peaks.tolist()}
+                if np.dtype(name).itemsize >= 4 and spread in ("pedestal", "full", "lifted"):
+                    # a stack of narrow frames (same shape, same peaks) goes through the same entry point right before
+                    p["prior_narrow"] = ("uint8", "int16", "uint16")[(k + rep) % 3]
+                    ctx.count("prior_narrow_call")
                 ctx.oracle_case("dtype", p, run_case("dtype", p),
                                 nontrivial=(np.dtype(name).kind in "iu" and spread != "narrow"))
                 ctx.count("oracle_" + name)
